@@ -30,6 +30,18 @@ func streamPlans(c *core.Check, design bool) []*driver.ReadPlan {
 			c.Note("MODEL: design check MC_Stream reports %s violated", r.InvViolated)
 		}
 		c.AddTLC(r)
+		if thorough {
+			// bodies of any length: Complete and Conserved proved with TLAPS (StreamProof.tla)
+			ok, n, out, err := core.RunTLAPM("StreamProof", 10*time.Minute)
+			if err != nil {
+				c.HarnessError(err.Error())
+				return nil
+			}
+			if !ok {
+				c.Note("MODEL: the TLAPS proof of StreamProof.tla does not go through: %s", out)
+			}
+			c.Cov["tlaps_proof"] = map[string]any{"module": "StreamProof", "theorem": "Spec => [](Complete /\\ Conserved), any L", "obligations_proved": n, "all_proved": ok}
+		}
 	}
 	cfg, units := "MC_Stream_emit.cfg", 4
 	if thorough {
